@@ -106,6 +106,7 @@ fn debug_sh(args: &[String]) {
         std::io::stdin().read_to_end(&mut input).ok();
     }
     cfg.stdin = input;
+    cfg.files.push(("/tmp/ff".into(), vsh::FileSpec::Fifo));
     cfg.keep_state = true;
     let out = vsh::run_v(cfg);
     if let Some(st) = &out.state {
